@@ -30,8 +30,19 @@ def module_info(name):
             tables[n.targets[0].id] = {t for c in ast.walk(n.value) if isinstance(c, ast.Constant) and isinstance(c.value, str) for t in IDENT.findall(c.value)}
     for fn in (n for n in tree.body if isinstance(n, ast.FunctionDef)):
         toks, calls, xcalls = set(), set(), set()
+        # message texts (the construct / detail arguments of ctx.check, ctx.violated, ctx.ok, ctx.undecided, ctx.note,
+        # ctx.vanished and the label of precondition obligations) describe, they do not look anything up
+        msg = set()
+        for c in ast.walk(fn):
+            if isinstance(c, ast.Call) and isinstance(c.func, ast.Attribute) and isinstance(c.func.value, ast.Name) and c.func.value.id == "ctx" \
+                    and c.func.attr in ("check", "violated", "ok", "undecided", "note", "vanished"):
+                first = {"check": 3, "violated": 2, "ok": 2, "undecided": 2, "note": 0, "vanished": 0}[c.func.attr]
+                for a in c.args[first:]:
+                    msg |= {id(x) for x in ast.walk(a)}
+            if isinstance(c, ast.Call) and isinstance(c.func, ast.Name) and c.func.id in ("obligation", "called_before") and len(c.args) > 2:
+                msg |= {id(x) for x in ast.walk(c.args[2])}
         for n in ast.walk(fn):
-            if isinstance(n, ast.Constant) and isinstance(n.value, str):
+            if isinstance(n, ast.Constant) and isinstance(n.value, str) and id(n) not in msg:
                 toks |= set(IDENT.findall(n.value))
             if isinstance(n, ast.Name) and n.id in tables:
                 toks |= tables[n.id]
